@@ -338,24 +338,40 @@ def _builder_field_flow(R, c):
         # interactivity header: match on self.params.source with fg under OnDemand
         ok = False
         det = ""
-        for bi in bodies_:
-          for b in sorted(bi.reach0):
-            si = guards.switch_info(bi, b)
-            if si and si.kind == "discr" and si.ty.get("d") == "protocol::request::InstallSource" and "params.source" in lib.apath(si.term):
-                vals = {}
-                for tgt in bi.succ[b]:
-                    strs = []
-                    # the header value constant is in the arm's exclusive region
-                    excl = bi.reach_from([tgt]) - bi.reach_from([x for x in bi.succ[b] if x != tgt], avoid=[b])
-                    for e in excl:
-                        t = bi.blocks[e]["t"]
-                        if t["k"] == "call" and lib.callee_is(t, "std::string::ToString::to_string"):
-                            v = lib.term_const(c, strip(bi.trace_op(t["args"][0])))
-                            strs.append(v)
-                    for nme in si.edge_names(bi, tgt):
-                        vals[nme] = strs
-                det = str(vals)
-                ok = vals.get("OnDemand") == ["fg"] and vals.get("ScheduledTask") == ["bg"]
+        all_bodies = lib.with_private_callees(W_, bodies_[0], same_self=False)
+        for hv_ in all_bodies:
+          for b in sorted(hv_.reach0):
+            si = guards.switch_info(hv_, b)
+            if not (si and si.kind == "discr" and si.ty.get("d") == "protocol::request::InstallSource"):
+                continue
+            subj = lib.apath(si.term)
+            from_params = "params.source" in subj
+            if not from_params and subj.startswith("param"):
+                # a helper taking the source as an argument: what is passed at its call sites
+                pi_ = int(subj[5:].split(".")[0]) if subj[5:].split(".")[0].isdigit() else None
+                sites_ = [(v2, t2) for v2 in all_bodies for _, t2 in v2.calls() if (t2.get("resolved_id") or t2.get("callee_id")) == hv_.id]
+                from_params = bool(sites_) and pi_ is not None and all(pi_ - 1 < len(t2["args"]) and "params.source" in lib.apath(v2.trace_op(t2["args"][pi_ - 1])) for v2, t2 in sites_)
+            if not from_params:
+                continue
+            vals = {}
+            for tgt in hv_.succ[b]:
+                strs = []
+                # the header value constant is in the arm's exclusive region
+                excl = hv_.reach_from([tgt]) - hv_.reach_from([x for x in hv_.succ[b] if x != tgt], avoid=[b])
+                for e in sorted(excl):
+                    t = hv_.blocks[e]["t"]
+                    if t["k"] == "call" and lib.callee_is(t, "std::string::ToString::to_string"):
+                        v = lib.term_const(c, strip(hv_.trace_op(t["args"][0])))
+                        strs.append(v)
+                    for s_ in hv_.blocks[e]["s"]:
+                        if s_["k"] == "assign" and s_["r"]["k"] == "use" and "k" in s_["r"].get("o", {}):
+                            v = lib.const_val(s_["r"]["o"]["k"])
+                            if isinstance(v, str) and v not in strs:
+                                strs.append(v)
+                for nme in si.edge_names(hv_, tgt):
+                    vals[nme] = strs
+            det = str(vals)
+            ok = vals.get("OnDemand") == ["fg"] and vals.get("ScheduledTask") == ["bg"]
         R.check("C05-R3", "interactivity", ok, "interactivity header fg iff params.source == OnDemand: " + det, "interactivity header is not {OnDemand: fg, ScheduledTask: bg} of params.source: " + det)
     auc = lib.one(R, "C05-R3", c, "RequestBuilder::add_update_check", item="add_update_check", impl_self=RB)
     if auc:
